@@ -1,11 +1,20 @@
 import Gv.Model.Stats
 import Gv.Spec.Genetic
+import Gv.Proofs.StatsSites
+import Gv.Proofs.StatsUnique
+import Gv.Proofs.StatsDiff
+import Gv.Proofs.StatsMut
+import Gv.Proofs.StatsProfile
 /-!
 # C14 — column statistics and consensus match definitions and are deterministic
 
 `maxLoop` is the selection loop of `MaxCharStats` run over the count entries in *some* order (Go
 iterates a map: any order).  The theorems show the result does not depend on that order and is the
 naive argmax with the smallest-byte tie rule.
+
+The second half states, for every counting statistic, that the model (`Gv.Model.Stats`: the loops of the Go
+code with their accumulators, early exits and counter slices) equals its naive definition
+(`Gv.Spec.Stats`: plain recounts) on **every** input; the developments are in `Gv.Proofs.Stats*`.
 -/
 namespace Gv.Props.C14
 open Gv Gv.Model
@@ -286,9 +295,382 @@ theorem equalOrCompatible_error (a b : Byte) (h : a > 15 ∨ b > 15) : equalOrCo
   have : (decide (a > 15) || decide (b > 15)) = true := by simpa using h
   simp [this]
 
+/-! ## every counting statistic equals its naive definition -/
+
+/-- the sorted count list built by successive `bump`s is the naive count table (for every key function) -/
+theorem countsBy_eq_countTable (f : Byte → Byte) (cs : List Byte) : countsBy f cs = Spec.countTable f cs :=
+  Proofs.StatsCount.countsBy_eq f cs
+
+/-- **`CharStats`** = for every byte value, the number of residues whose upper-case form it is -/
+theorem charStats_eq_spec (rows : CRows) : charStats rows = Spec.charStats rows := by
+  unfold charStats Spec.charStats
+  rw [countsBy_eq_countTable, Proofs.StatsCount.upper_eq]
+
+/-- **`UniqueCharacters`** = the byte values that are the upper-case form of some residue, increasing -/
+theorem uniqueCharacters_eq_spec (rows : CRows) : uniqueCharacters rows = Spec.uniqueCharacters rows := by
+  unfold uniqueCharacters Spec.uniqueCharacters
+  rw [charStats_eq_spec]
+  unfold Spec.charStats Spec.countTable
+  rw [← Proofs.StatsCount.tab_allBytes, Proofs.StatsCount.tab_keys]
+  apply List.filter_congr
+  intro k _
+  rw [Bool.eq_iff_iff]
+  simp only [Spec.occ, gt_iff_lt, List.countP_pos_iff, decide_eq_true_eq, List.any_eq_true]
+
+/-- **`CharStatsSeq(idx)`** = the count table of row `idx`, an error exactly outside `[0, n)` -/
+theorem charStatsSeq_eq_spec (rows : CRows) (idx : Int) : charStatsSeq rows idx = Spec.charStatsSeq rows idx := by
+  unfold charStatsSeq Spec.charStatsSeq
+  by_cases h : idx < 0 ∨ idx ≥ rows.length
+  · have h1 : (decide (idx < 0) || decide (idx ≥ (rows.length : Int))) = true := by simpa using h
+    have h2 : ¬ (0 ≤ idx ∧ idx < (rows.length : Int)) := by omega
+    rw [if_pos h1, if_neg h2]
+  · have h1 : ¬ ((decide (idx < 0) || decide (idx ≥ (rows.length : Int))) = true) := by simpa using h
+    have h2 : 0 ≤ idx ∧ idx < (rows.length : Int) := by omega
+    rw [if_neg h1, if_pos h2]
+    have hlt : idx.toNat < rows.length := by omega
+    rw [List.getElem?_eq_getElem hlt, List.getD_eq_getElem?_getD, List.getElem?_eq_getElem hlt]
+    simp only [Option.map_some, Option.getD_some]
+    rw [countsBy_eq_countTable, Proofs.StatsCount.upper_eq]
+
+/-- **`CharStatsSite(site)`** = the count table of column `site`, an error exactly outside `[0, L)` -/
+theorem charStatsSite_eq_spec (rows : CRows) (L site : Int) :
+    charStatsSite rows L site = Spec.charStatsSite rows L site := by
+  unfold charStatsSite Spec.charStatsSite
+  by_cases h : site < 0 ∨ site ≥ L
+  · have h1 : (decide (site < 0) || decide (site ≥ L)) = true := by simpa using h
+    have h2 : ¬ (0 ≤ site ∧ site < L) := by omega
+    rw [if_pos h1, if_neg h2]
+  · have h1 : ¬ ((decide (site < 0) || decide (site ≥ L)) = true) := by simpa using h
+    have h2 : 0 ≤ site ∧ site < L := by omega
+    rw [if_neg h1, if_pos h2, countsBy_eq_countTable, Proofs.StatsCount.upper_eq]
+    rfl
+
+/-- **`Entropy(site, removegaps)`**: the occurrence map built row after row holds the naive counts, so the value
+is the sum `− Σ p log p` over the characters present in increasing order (same `Float` operations as the
+definition; what `math.Log` rounds to is outside the model), NaN on an empty selection, an error exactly
+outside `[0, L)` -/
+theorem entropy_eq_spec (rows : CRows) (L site : Int) (rg : Bool) :
+    entropy rows L site rg = Spec.entropy rows L site rg := by
+  unfold entropy Spec.entropy
+  by_cases h : site < 0 ∨ site ≥ L
+  · have h1 : (decide (site < 0) || decide (site ≥ L)) = true := by simpa using h
+    have h2 : ¬ (0 ≤ site ∧ site < L) := by omega
+    rw [if_pos h1, if_neg h2]
+  · have h1 : ¬ ((decide (site < 0) || decide (site ≥ L)) = true) := by simpa using h
+    have h2 : 0 ≤ site ∧ site < L := by omega
+    rw [if_neg h1, if_pos h2]
+    simp only [countsBy_eq_countTable]
+    have hc : ((columnAt rows site.toNat).filter fun s => s != OTHER && s != POINT && (!rg || s != GAP)) =
+        (Spec.column rows site.toNat).filter fun s => s != 42 && s != 46 && (!rg || s != 45) := rfl
+    rw [hc]
+    by_cases h0 : ((Spec.column rows site.toNat).filter fun s => s != 42 && s != 46 && (!rg || s != 45)).length = 0
+    · simp [h0]
+    · have : (((Spec.column rows site.toNat).filter fun s => s != 42 && s != 46 && (!rg || s != 45)).length == 0) = false := by
+        simpa using h0
+      simp [h0, this]
+
+/-- the per-site counts do not depend on the order of the rows -/
+theorem charStatsSite_row_order_independent (rows rows' : CRows) (hp : rows.Perm rows') (L site : Int) :
+    charStatsSite rows L site = charStatsSite rows' L site := by
+  rw [charStatsSite_eq_spec, charStatsSite_eq_spec]
+  unfold Spec.charStatsSite
+  split
+  · rw [Proofs.StatsCount.countTable_perm]
+    exact hp.map _
+  · rfl
+
+/-- **`NbVariableSites`**: the early-exit loop over `charmap` counts exactly the sites holding two different
+characters other than `-`, `.`, `*` -/
+theorem nbVariableSites_eq_spec (rows : CRows) (L : Int) :
+    nbVariableSites rows L = Spec.nbVariableSites rows L.toNat :=
+  Proofs.StatsSites.nbVariableSites_eq rows L
+
+/-- **`InformativeSites`**: the early-exit loop (stop as soon as two characters reached a count of two)
+selects exactly the sites where at least two upper-cased characters occur at least twice among the
+characters other than `-`, `.` and the wildcard -/
+theorem informativeSites_eq_spec (rows : CRows) (L : Int) (alphabet : Nat) :
+    informativeSites rows L alphabet = Spec.informativeSites rows L.toNat alphabet :=
+  Proofs.StatsSites.informativeSites_eq rows L alphabet
+
+/-- **`AvgAllelesPerSite`** is the quotient of: the number of distinct plain characters summed over the sites,
+and the number of sites holding a plain character -/
+theorem avgAllelesCounts_eq_spec (rows : CRows) (L : Int) :
+    avgAllelesCounts rows L = Spec.allelesCounts rows L.toNat :=
+  Proofs.StatsSites.avgAllelesCounts_eq rows L
+
+/-- **`CountDifferences`** crashes (`make` with length −1) exactly on an alignment without sequences -/
+theorem countDifferences_panic_iff (rows : CRows) : countDifferences rows = none ↔ rows = [] := by
+  cases rows <;> simp [countDifferences]
+
+/-- **`CountDifferences`, first result**: every kind of difference with the first row, in order of first
+appearance -/
+theorem countDifferences_all_eq_spec (f : String × Seq) (rest : CRows) :
+    (countDifferences (f :: rest)).map Prod.fst = some (Spec.allDiffs (f :: rest)) := by
+  simp only [countDifferences, Option.map_some, Option.some.injEq]
+  exact Proofs.StatsDiff.countDifferences_all f rest
+
+/-- **`CountDifferences`, second result**: one map per row other than the first; its keys are distinct (they
+come in order of first appearance) and it holds, for every kind of difference, the number of positions where
+that row differs from the first row in that way -/
+theorem countDifferences_counts_eq_spec (f : String × Seq) (rest : CRows) :
+    ∃ per, (countDifferences (f :: rest)).map Prod.snd = some per ∧ per.length = rest.length ∧
+    ∀ i (hi : i < rest.length),
+      ((per.getD i []).map Prod.fst).Nodup ∧
+      ∀ p, lookup p (per.getD i []) =
+        if Spec.diffCount f.2 rest[i].2 p > 0 then some (Spec.diffCount f.2 rest[i].2 p) else none := by
+  refine ⟨(countDifferences1 f rest).2, rfl, ?_⟩
+  rw [Proofs.StatsDiff.countDifferences_rows]
+  refine ⟨by simp, ?_⟩
+  intro i hi
+  have e : (rest.map fun r => Proofs.StatsDiff.tally (Spec.diffsOf f.2 r.2)).getD i [] =
+      Proofs.StatsDiff.tally (Spec.diffsOf f.2 rest[i].2) := by
+    simp [List.getD_eq_getElem?_getD, List.getElem?_map, List.getElem?_eq_getElem hi]
+  rw [e]
+  refine ⟨?_, ?_⟩
+  · rw [Proofs.StatsDiff.keys_tally]
+    exact Proofs.StatsDiff.firstOccurrences_nodup _
+  · intro p
+    exact Proofs.StatsDiff.lookup_tally _ p
+
+/-- **`NumGapsUniquePerSequence(nil)`**: the counter slice filled site after site (with the scan that stops at
+the second gap) holds, for every row, the number of sites where it has the only gap of the column -/
+theorem numGapsUnique_eq_spec (rows : CRows) (L : Int) :
+    numGapsUnique rows L = Spec.numGapsUnique rows L.toNat :=
+  Proofs.StatsUnique.numGapsUnique_eq rows L
+
+/-- **`NumMutationsUniquePerSequence(nil)`**: an index panic exactly when a column holds a byte ≥ 130;
+otherwise, for every row, the number of sites where its character (neither gap nor wildcard) occurs once -/
+theorem numMutationsUnique_eq_spec (rows : CRows) (L : Int) (alphabet : Nat) :
+    numMutationsUnique rows L alphabet =
+      if Spec.hasHighByte rows L.toNat then none else some (Spec.numMutationsUnique rows L.toNat alphabet) :=
+  Proofs.StatsUnique.numMutationsUnique_eq rows L alphabet
+
+/-- **IUPAC compatibility, on characters**: for two nucleotide characters (IUPAC letters in either case, `-`,
+`*`, `X`, `.`) the test of the implementation on their `iupacToInt` codes answers "same base set, or a base
+in common" -/
+theorem equalOrCompatible_is_shared_base (c r : Byte)
+    (hc : (Spec.ntBases c).isSome = true) (hr : (Spec.ntBases r).isSome = true) :
+    (do let a ← nt2IndexIUPAC c; let b ← nt2IndexIUPAC r; equalOrCompatible a b) =
+      some (Spec.compatible (Spec.basesOf c) (Spec.basesOf r)) := by
+  have h := Proofs.StatsIupac.compat_eq c r hc hr
+  have h1 := (Proofs.StatsIupac.fold_upper c).2.2.1
+  have h2 := (Proofs.StatsIupac.fold_upper r).2.2.1
+  rw [hc] at h1
+  rw [hr] at h2
+  unfold Proofs.StatsIupac.codeOf at h
+  cases ha : nt2IndexIUPAC c with
+  | none => rw [ha] at h1; simp at h1
+  | some a =>
+    cases hb : nt2IndexIUPAC r with
+    | none => rw [hb] at h2; simp at h2
+    | some b =>
+      rw [ha, hb] at h
+      simpa using h
+
+/-- a character is known to `Nt2IndexIUPAC` exactly when it is a nucleotide character of the definition -/
+theorem nt2IndexIUPAC_defined_iff (c : Byte) : (nt2IndexIUPAC c).isSome = (Spec.ntBases c).isSome :=
+  ((Proofs.StatsIupac.fold_upper c).2.2.1).symm
+
+/-- **`NumMutationsComparedToReferenceSequence`** = the number of positions whose query character is neither
+a gap nor the wildcard and is incompatible with (nucleotides) / different from (otherwise) the reference
+character; error exactly for different lengths or a non-nucleotide character in a nucleotide comparison.
+In particular IUPAC-compatible characters, `N`/`X` and gaps in the query never count. -/
+theorem numMutationsVsRef_eq_spec (alphabet : Nat) (s ref : Seq) :
+    numMutationsVsRef alphabet s ref = Spec.numMutations alphabet s ref :=
+  Proofs.StatsMut.numMutationsVsRef_eq alphabet s ref
+
+/-- **`ListMutationsComparedToReferenceSequence`**: the scan with its insertion buffer and reference counter
+lists, for every block of the pairwise alignment cut after each reference residue and numbered by reference
+coordinate, one insertion holding all inserted characters and then the substitution (if any) -/
+theorem listMutationsVsRef_eq_spec (alphabet : Nat) (s ref : Seq) :
+    listMutationsVsRef alphabet s ref = Spec.mutationListVsRef alphabet s ref :=
+  Proofs.StatsMut.listMutationsVsRef_eq alphabet s ref
+
+/-- what is never listed / counted: a position whose query character is the wildcard or is
+equal/compatible contributes no substitution (directly from the definition of a block's rendering) -/
+theorem wildcard_or_compatible_is_no_substitution (all : Byte) (ins : List Byte) (c r : Byte) (eq : Bool) (p : Nat)
+    (h : c = all ∨ eq = true) :
+    Spec.renderBlock all ((ins, some (c, r, eq)), p) = if ins.isEmpty then [] else [(45, p, ins)] := by
+  unfold Spec.renderBlock
+  rcases h with h | h
+  · subst h; simp
+  · subst h; simp
+
+/-! ## `MaxCharStats` / `Consensus` on the actual count entries of a column -/
+
+/-- the count entries of a column (Go: `mapstats`, here in order of first appearance) are the tally of the
+upper-cased characters -/
+theorem countUpper_eq_tally (col : List Byte) : countUpper col = Proofs.StatsDiff.tally (col.map toUpper) := by
+  unfold countUpper Proofs.StatsDiff.tally
+  rw [List.foldl_map]
+  rfl
+
+/-- their keys are distinct -/
+theorem countUpper_keys_nodup (col : List Byte) : ((countUpper col).map Prod.fst).Nodup := by
+  rw [countUpper_eq_tally, Proofs.StatsDiff.keys_tally]
+  exact Proofs.StatsDiff.firstOccurrences_nodup _
+
+/-- they hold the naive counts: for every byte value, the number of rows whose upper-cased character it is -/
+theorem countUpper_lookup (col : List Byte) (k : Byte) :
+    lookup k (countUpper col) =
+      if Spec.occ Spec.upperCase col k > 0 then some (Spec.occ Spec.upperCase col k) else none := by
+  rw [countUpper_eq_tally, Proofs.StatsDiff.lookup_tally]
+  have : (col.map toUpper).count k = Spec.occ Spec.upperCase col k := by
+    unfold Spec.occ
+    rw [List.count_eq_countP, List.countP_map]
+    rfl
+  rw [this]
+
+private theorem lookup_of_mem {l : List (Byte × Nat)} (hn : (l.map Prod.fst).Nodup) {k : Byte} {v : Nat}
+    (h : (k, v) ∈ l) : lookup k l = some v := by
+  induction l with
+  | nil => simp at h
+  | cons e t ih =>
+    obtain ⟨k', v'⟩ := e
+    simp only [List.map_cons, List.nodup_cons] at hn
+    rcases List.mem_cons.mp h with e | e
+    · simp only [Prod.mk.injEq] at e
+      obtain ⟨rfl, rfl⟩ := e
+      simp [lookup]
+    · have hne : (k == k') = false := by
+        simp only [beq_eq_false_iff_ne, ne_eq]
+        intro hk; subst hk
+        exact hn.1 (List.mem_map_of_mem (f := Prod.fst) e)
+      simp only [lookup, hne, Bool.false_eq_true, if_false]
+      exact ih hn.2 e
+
+/-- every entry has a positive count -/
+theorem countUpper_pos (col : List Byte) : ∀ e ∈ countUpper col, 0 < e.2 := by
+  intro e he
+  have h1 := lookup_of_mem (countUpper_keys_nodup col) (k := e.1) (v := e.2) he
+  rw [countUpper_lookup] at h1
+  split at h1
+  · simp only [Option.some.injEq] at h1; omega
+  · simp at h1
+
+/-- **`MaxCharStats` at a site is deterministic**: whatever the order in which the map of counts of that
+column is iterated, the character, its count and the total are those computed by the model -/
+theorem maxCharSite_order_independent (alphabet : Nat) (ig iN : Bool) (col : List Byte) (es : List (Byte × Nat))
+    (hp : es.Perm (countUpper col)) :
+    let all : Byte := if alphabet == AMINOACIDS then 88 else 78
+    let r := maxLoop ig iN all (toLower all) es (toUpper (col.headD 0), col.length, 0, 0)
+    (r.1, r.2.1, r.2.2.1) = maxCharSite alphabet ig iN col := by
+  intro all r
+  unfold maxCharSite
+  have hk : (es.map Prod.fst).Nodup := (hp.map Prod.fst).nodup_iff.mpr (countUpper_keys_nodup col)
+  have := maxLoop_perm ig iN all (toLower all) es (countUpper col) hp hk (toUpper (col.headD 0), col.length, 0, 0)
+  simp only [r, this]
+  rfl
+
+/-- **`MaxCharStats` at a site returns the naive majority**: when some character of the column is not
+excluded, the result is a count entry that no admissible entry beats (higher count, or the same count and
+a smaller byte) and `total` is the number of rows holding an admissible character; when every character is
+excluded the first character (upper-cased) and the number of rows are returned -/
+theorem maxCharSite_is_argmax (alphabet : Nat) (ig iN : Bool) (col : List Byte) :
+    let all : Byte := if alphabet == AMINOACIDS then 88 else 78
+    SelInv ig iN all (toLower all) (toUpper (col.headD 0)) col.length (countUpper col)
+      (maxLoop ig iN all (toLower all) (countUpper col) (toUpper (col.headD 0), col.length, 0, 0)) := by
+  intro all
+  exact maxLoop_is_argmax ig iN all (toLower all) (countUpper col) (countUpper_pos col) _ _
+
+/-! ## count profile -/
+
+/-- `NewCountProfileFromAlignment` crashes (index into the 130-entry `names`) exactly when a residue is ≥ 130 -/
+theorem countProfile_panic_iff (rows : CRows) (L : Int) :
+    countProfile rows L = none ↔ ∃ r ∈ rows, ∃ c ∈ r.2, c ≥ 130 := by
+  unfold countProfile
+  by_cases h : rows.any (fun r => r.2.any fun c => c ≥ 130) = true
+  · simp only [h, if_true, true_iff]
+    simpa using h
+  · have h' : rows.any (fun r => r.2.any fun c => c ≥ 130) = false := Bool.eq_false_iff.mpr h
+    simp only [h', Bool.false_eq_true, if_false, reduceCtorEq, false_iff]
+    intro hh; apply h; simpa using hh
+
+/-- **the count profile is the naive per-site recount**: the header lists the characters in order of first
+appearance (row after row, left to right); every character has one counter per site; a character is in the
+profile exactly when it occurs in the alignment; its counter at site `j` is the number of rows holding it there -/
+theorem countProfile_eq_spec (rows : CRows) (L : Int) (prof : List (Byte × List Nat))
+    (h : countProfile rows L = some prof) :
+    prof.map Prod.fst = Spec.profileHeader rows ∧
+    (∀ q v, lookup q prof = some v → v.length = L.toNat) ∧
+    (∀ q, (lookup q prof).isSome = true ↔ q ∈ rows.flatMap Prod.snd) ∧
+    (∀ q j, j < L.toNat → ((lookup q prof).getD (List.replicate L.toNat 0)).getD j 0 = Spec.profileCountAt rows j q) := by
+  unfold countProfile at h
+  split at h
+  · simp at h
+  · simp only [Option.some.injEq] at h
+    subst h
+    exact Proofs.StatsProfile.profile_spec rows L.toNat
+
+/-- **`Count(r, site)`** on that profile: an index panic for `r ≥ 130`, an error for a character that does not occur
+or a site outside `[0, L)`, otherwise the number of rows holding `r` at that site -/
+theorem profileCount_eq_spec (rows : CRows) (L : Int) (prof : List (Byte × List Nat))
+    (h : countProfile rows L = some prof) (r : Byte) (site : Int) :
+    profileCount prof r site = if r ≥ 130 then none else some (Spec.profileCount rows L.toNat r site) := by
+  obtain ⟨_, h2, h3, h4⟩ := countProfile_eq_spec rows L prof h
+  unfold profileCount Spec.profileCount
+  by_cases hr : r ≥ 130
+  · simp [hr]
+  · simp only [hr, if_false, Option.some.injEq]
+    cases hl : lookup r prof with
+    | none =>
+      have : ¬ r ∈ rows.flatMap Prod.snd := by
+        intro hm
+        have := (h3 r).mpr hm
+        rw [hl] at this; simp at this
+      simp [this]
+    | some cs =>
+      have hm : r ∈ rows.flatMap Prod.snd := (h3 r).mp (by rw [hl]; rfl)
+      have hlen := h2 r cs hl
+      simp only []
+      by_cases hs : site < 0 ∨ site ≥ (cs.length : Int)
+      · have h1 : (decide (site < 0) || decide (site ≥ (cs.length : Int))) = true := by simpa using hs
+        have h5 : ¬ (r ∈ rows.flatMap Prod.snd ∧ 0 ≤ site ∧ site < (L.toNat : Int)) := by
+          rw [hlen] at hs; omega
+        rw [if_pos h1, if_neg h5]
+      · have h1 : ¬ ((decide (site < 0) || decide (site ≥ (cs.length : Int))) = true) := by simpa using hs
+        have h5 : r ∈ rows.flatMap Prod.snd ∧ 0 ≤ site ∧ site < (L.toNat : Int) := by
+          rw [hlen] at hs; exact ⟨hm, by omega, by omega⟩
+        rw [if_neg h1, if_pos h5]
+        have := h4 r site.toNat (by rw [hlen] at hs; omega)
+        rw [hl] at this
+        simp only [Option.getD_some] at this
+        rw [this]
+
 /-! ## non-vacuity -/
 
 example : maxLoop false false 78 110 [(65, 2), (67, 2), (71, 1)] (71, 5, 0, 0) = (65, 2, 5, 2) := by decide
 example : maxLoop false false 78 110 [(67, 2), (71, 1), (65, 2)] (71, 5, 0, 0) = (65, 2, 5, 2) := by decide
+
+/-- rows `AcN-`, `aGN-`, `CGT.`, `CCTA` (nucleotides) -/
+def exRows : CRows := [("a", [65, 99, 78, 45]), ("b", [97, 71, 78, 45]), ("c", [67, 71, 84, 46]), ("d", [67, 67, 84, 65])]
+
+example : maxCharSite 1 false false [65, 99, 67, 97] = (65, 2, 4) ∧ countUpper [65, 99, 67, 97] = [(65, 2), (67, 2)] := by decide
+example : countProfile exRows 4 = some [(65, [1, 0, 0, 1]), (99, [0, 1, 0, 0]), (78, [0, 0, 2, 0]), (45, [0, 0, 0, 2]),
+    (97, [1, 0, 0, 0]), (71, [0, 2, 0, 0]), (67, [2, 1, 0, 0]), (84, [0, 0, 2, 0]), (46, [0, 0, 0, 1])] := by decide
+example : Spec.profileCount exRows 4 67 0 = some 2 ∧ Spec.profileCount exRows 4 67 4 = none ∧
+    Spec.profileCount exRows 4 90 0 = none := by decide
+example : charStatsSite exRows 4 1 = some [(67, 2), (71, 2)] := by decide
+example : Spec.charStatsSite exRows 4 1 = some [(67, 2), (71, 2)] := by decide
+example : charStatsSite exRows 4 4 = none ∧ charStatsSite exRows 4 (-1) = none := by decide
+example : nbVariableSites exRows 4 = 3 ∧ Spec.nbVariableSites exRows 4 = 3 := by decide
+example : informativeSites exRows 4 1 = [0, 1] ∧ Spec.informativeSites exRows 4 1 = [0, 1] := by decide
+example : avgAllelesCounts exRows 4 = (9, 4) ∧ Spec.allelesCounts exRows 4 = (9, 4) := by decide
+example : numGapsUnique exRows 4 = [0, 0, 0, 0] ∧
+    numGapsUnique [("a", [45, 45]), ("b", [65, 45]), ("c", [65, 67])] 2 = [1, 0, 0] := by decide
+example : numMutationsUnique exRows 4 1 = some [2, 1, 1, 2] ∧ Spec.numMutationsUnique exRows 4 1 = [2, 1, 1, 2] := by
+  decide
+example : numMutationsUnique [("a", [200])] 1 1 = none := by decide
+example : (countDifferences exRows).map Prod.fst = some [(65, 97), (99, 71), (65, 67), (78, 84), (45, 46), (99, 67), (45, 65)] := by decide
+example : Spec.allDiffs exRows = [(65, 97), (99, 71), (65, 67), (78, 84), (45, 46), (99, 67), (45, 65)] := by decide
+/-- query `AR-NTTG` against reference `AC--T-A`: R/C incompatible; `N`, `T` inserted at coordinate 2; `T` inserted
+at coordinate 3; G/A incompatible -/
+example : listMutationsVsRef 1 [65, 82, 45, 78, 84, 84, 71] [65, 67, 45, 45, 84, 45, 65] =
+    some [(67, 1, [82]), (45, 2, [78]), (45, 3, [84]), (65, 3, [71])] := by decide
+example : Spec.mutationListVsRef 1 [65, 82, 45, 78, 84, 84, 71] [65, 67, 45, 45, 84, 45, 65] =
+    some [(67, 1, [82]), (45, 2, [78]), (45, 3, [84]), (65, 3, [71])] := by decide
+example : numMutationsVsRef 1 [65, 82, 45, 78, 84, 84, 71] [65, 67, 45, 45, 84, 45, 65] = some 3 := by decide
+example : (Spec.ntBases 114).isSome = true ∧ (Spec.ntBases 89).isSome = true ∧
+    Spec.compatible (Spec.basesOf 114) (Spec.basesOf 89) = false := by decide
 
 end Gv.Props.C14
